@@ -698,7 +698,7 @@ func runAdversaryCase(t *testing.T, c *advCase, proto bool, idx int) (what, clas
 		w.Bus.Proto = false
 		w.Sleep(25 * time.Second) // every 10 s time-out of the handlers has fired
 		setNet(false)
-		if proposeDone != nil {   // H's own proposal call (40 s context) returns, whatever the answer was
+		if proposeDone != nil { // H's own proposal call (40 s context) returns, whatever the answer was
 			w.Sleep(40 * time.Second)
 			select {
 			case <-proposeDone:
